@@ -68,13 +68,24 @@ def row_consistency(name, kind, row, testnet):
     return None
 
 
+def norm(x):
+    """tuples and lists are the same thing for this property (rows 'in order'); mappings of any flavour are mappings"""
+    if isinstance(x, dict) or hasattr(x, "items") and callable(x.items):
+        return {k: norm(v) for k, v in x.items()}
+    if isinstance(x, (list, tuple)):
+        return [norm(v) for v in x]
+    return x
+
+
 def diff_paths(a, b, pre=""):
+    """a = observed (normalised), b = expected. Every field the reference wallet has must be present and equal; ADDITIONAL
+    fields of a mapping are not judged (the property lists what a wallet shows, not what else it may show)."""
     if type(a) != type(b):
         return [pre or "<root>"]
     if isinstance(a, dict):
         out = []
-        for k in sorted(set(a) | set(b), key=str):
-            if k not in a or k not in b:
+        for k in sorted(b, key=str):
+            if k not in a:
                 out.append("%s/%s" % (pre, k))
             else:
                 out += diff_paths(a[k], b[k], "%s/%s" % (pre, k))
@@ -96,8 +107,8 @@ def judge_generate(w, m, mn, pw, testnet, account, interval, ctxmsg=""):
     net = "testnet" if testnet else "mainnet"
     if st != "ok":
         return [V("%s:generate:%s:raised" % (P, net), "%sgenerate(account=%d, interval=%r) raised %s" % (ctxmsg, account, interval, data))], None
-    if data != exp:
-        d = diff_paths(data, exp)
+    d = diff_paths(norm(data), exp)
+    if d:
         top = sorted({x.split("/")[1].split("[")[0] if "/" in x else x for x in d})
         leaf = sorted({(x.rsplit("/", 1)[-1].split("[")[0]) for x in d})
         viols.append(V("%s:generate:%s:%s:differs" % (P, net, "+".join(top)[:60]),
@@ -127,10 +138,10 @@ def chk_vector(si, testnet, account, interval):
     viols, data = judge_generate(w, m, mn, pw, testnet, account, interval)
     if data is not None:
         st, js = attempt(w.json, data)
-        if st != "ok" or json.loads(js) != data:
+        if st != "ok" or json.loads(js) != norm(data):
             viols.append(V(P + ":json:roundtrip:differs", "json(data) does not parse back to data"))
         st, js4 = attempt(w.json, data, 4)
-        if st != "ok" or json.loads(js4) != data:
+        if st != "ok" or json.loads(js4) != norm(data):
             viols.append(V(P + ":json:roundtrip-indent:differs", "json(data, indent=4) does not parse back to data"))
     st, wj = attempt(w.wasabi_json)
     acct84 = hd.derive(m, [H + 84, H, H])
@@ -211,8 +222,8 @@ class SameMasterHistories:
             if n == len(hist) - 1:
                 if st != "ok":
                     viols.append(V(P + ":same-master-history:%s:raised" % req, "after %r: %s.%s raised %s" % (hist[:-1], wid, req, out)))
-                elif out != exp:
-                    d = diff_paths(out, exp)
+                elif diff_paths(norm(out), exp):
+                    d = diff_paths(norm(out), exp)
                     viols.append(V("%s:same-master-history:%s:differs" % (P, req), "after %r in the same process, wallet %s's %s differs from its own reference wallet at %r" % (
                         hist[:-1], wid, req, d[:4])))
                 label = "violation" if viols else "answer-ok"
